@@ -164,6 +164,12 @@ func cmdDrive(args []string) {
 	r := &recorder{w: bufio.NewWriter(f)}
 	defer r.w.Flush()
 	g := gen.New(*seed)
+	if *family == "f64" {
+		ne := driveF64(g.R, *n, r.w)
+		r.w.Flush()
+		fmt.Printf("drive f64: seed %d, %d expressions, %d events\n", *seed, *n, ne)
+		return
+	}
 	fam, ok := families[*family]
 	if !ok {
 		fmt.Fprintf(os.Stderr, "xvh: unknown family %q\n", *family)
